@@ -35,6 +35,7 @@
 //! thread, it is hard to implement in 100% safe Rust without overhead. So, accessing the algorithm managed per-entry
 //! state requires operation on the `UnsafeCell`.
 
+#![cfg_attr(not(foyer_verif), allow(unexpected_cfgs))]
 #![cfg_attr(feature = "nightly", feature(allocator_api))]
 
 mod cache;
